@@ -263,7 +263,7 @@ def main():
         if not ctx.quick:
             for f in singles:
                 subsets.append(("single-on:%s:%s" % f, set(allf) - {f}))
-        for i in range(5 if ctx.quick else 150):
+        for i in range(14 if ctx.quick else 150):
             dens = rng.choice([0.1, 0.3, 0.5, 0.7, 0.9])
             subsets.append(("random-%d" % i, {f for f in allf if rng.random() < dens}))
     ref_obs = probe(run, base, feats, set(allf))
@@ -290,7 +290,7 @@ def main():
         finally:
             shutil.rmtree(b["src"], ignore_errors=True)
 
-    with ThreadPoolExecutor(max_workers=12) as ex:
+    with ThreadPoolExecutor(max_workers=16) as ex:
         results = list(ex.map(work, list(enumerate(subsets))))
     order = [f for f in allf]
     for label, off, bad, kind in results:
